@@ -174,7 +174,7 @@ class PartitionedArray(object):
             if any(isinstance(x, numpy.ma.MaskedArray) for x in tocat):
                 return numpy.ma.concatenate(tocat)
             else:
-                return ak.nplike.of(tocat).concatenate(tocat)
+                return ak.nplike.of(*tocat).concatenate(tocat)
         else:
             return y
 
